@@ -378,6 +378,9 @@ def check_lineage(spec, st, tier, only=None):
 def _shard(shard, nshards, payload):
     st = Stats()
     specs = decl_specs(payload['tier'])
+    if payload.get('o'):
+        # under python -O: the one- and two-field shapes and the special programs (the components run under -O in C01/C02/C04/C08/C12)
+        specs = [sp for sp in specs if ('shape' in sp and len(sp['shape']) <= 2) or 'special' in sp]
     for i, spec in enumerate(specs):
         if i % nshards != shard:
             continue
@@ -392,11 +395,15 @@ def _shard(shard, nshards, payload):
 
 def run(tier):
     st = common.merge_all(common.run_sharded(_shard, {'tier': tier}))
+    from mc import ea_o
+    so = ea_o.run_shard('mc.props.c03', '_shard', {'tier': 'quick', 'o': True})      # short shapes and specials once more under python -O
+    st.merge(so)
+    st.notes.extend(so.notes)
     cov = ea.coverage(st, 'runs of 1-%d fixed-size fields over Int 1/2/4/8 (big/little, signed), Int 3/5, constant Data, a variable field (Data by field, marker, '
                           'repeated, Bits 4+4 / 3+13, positioned, aligned, Em) before/between/after runs, described fields, embed, class endianness/align, '
                           'references, plus the whole component alphabet x wrappers; each under all 16 option combinations applied to every class; %d lineages of same-named classes with different layouts sharing one cache file under each combination; all inputs '
                           'up to the bound plus long ramp inputs; every parsed value packed again and with ill values per attribute; '
-                          'states = distinct (declaration, parsed value)' % (3 if tier == 'quick' else 4, len(LINEAGES)),
+                          'states = distinct (declaration, parsed value); the one- and two-field shapes and the special programs once more in child interpreters started with -O' % (3 if tier == 'quick' else 4, len(LINEAGES)),
                       {'variants_per_program': 16})
     errs = [n for n in st.notes if n.startswith('HARNESS')]
     return {'stats': st, 'coverage': cov, 'harness_errors': errs,
